@@ -241,6 +241,9 @@ func Verif_C19_T4_HierarchicalFindMissing() {
 	vnd.Assert(len(got) == foundCount, "hierarchical FindMissing returned a digest that was not asked for (or under an ancestor's name)")
 	vnd.Assert(store.strangers == 0, "hierarchical FindMissing asked the backend for a name outside the ancestor chains")
 	vnd.Assert(len(store.calls) > 0 && len(store.calls[0].Digests) == len(items), "first backend call does not carry the caller's set")
+	// mechanism check (level-by-level search): every round strips one level off
+	// every unresolved digest, so the deepest name (3 components) bounds the
+	// number of rounds; a pruning loop that skips entries needs extra rounds.
 	vnd.Assert(len(store.calls) <= 4, "more backend rounds than the deepest name has levels")
 	if foundCount == 0 {
 		vnd.Cover("t4-fm-none-missing")
